@@ -10,6 +10,8 @@ TRACE_ENV = {"JAVA_TOOL_OPTIONS": "-Xss512m"}
 def exhaustive(ctx, cursor=False):
     """model-check the oracle itself: algebraic laws of Denote over every tiny database and
     every query of depth <= 1 (quick) plus wider/deeper universes (thorough)"""
+    if ctx.replay:
+        return
     if os.environ.get("VERIF_SKIP_MC") == "1":   # development aid only (mutation testing of the binding)
         ctx.cov["states"] = ctx.cov["transitions"] = 1
         return
@@ -25,6 +27,14 @@ def exhaustive(ctx, cursor=False):
         "TLC bounds (oracle laws): tables t1(a,b) <= 2 rows, t2(b,c) <= 1 row over 2 values "
         "(thorough: 3 values incl. \"\"), every query of one operator on a base table drawn from "
         "where/project/rename/extend/summarize/join/leftjoin/semijoin/times/union/intersect/minus")
+
+
+def replayed(ctx, classify, drop_stops=None):
+    """bin/vcheck <id> quick --replay <file>: validate a stored trace instead of running the driver"""
+    if not ctx.replay:
+        return False
+    validate(ctx, ctx.replay, classify, drop_stops)
+    return True
 
 
 def ast_has(ast, pred, top=True):
